@@ -58,6 +58,10 @@ def build_data(case):
 def build_models(case):
     cont = case.get('container', 'list')
     models = []
+    # a model's name is a label, not an identity: in a third of the cases with several models
+    # all of them carry the same name (a deterministic function of the case)
+    first = np.array(case['models'][0]['vecs'], dtype=float)
+    shared_name = len(case['models']) >= 2 and int(round(abs(float(np.nansum(first))) * 8)) % 3 == 0
     for k, spec in enumerate(case['models']):
         vecs = np.array(spec['vecs'], dtype=float)
         pd = {}
@@ -67,6 +71,8 @@ def build_models(case):
         obj = RDMs(vecs.copy(), dissimilarity_measure='euclidean',
                    pattern_descriptors=pd)
         name = 'm%d_%s' % (k, spec['type'])
+        if shared_name:
+            name = 'model'
         if spec['type'] == 'fixed':
             m = M.ModelFixed(name, obj)
         elif spec['type'] == 'select':
